@@ -9,6 +9,9 @@ import GLua.Proofs.PmGsub
 import GLua.Proofs.PmCompile
 import GLua.Proofs.PmLit
 import GLua.Proofs.PmScanner
+import GLua.Proofs.PmFragFind
+import GLua.Proofs.PmCapFind
+import GLua.Proofs.PmCapLimit
 
 namespace GLua.Props.C14
 open GLua GLua.Pm GLua.LuaPattern GLua.PmProofs
@@ -190,5 +193,164 @@ example : modelFind [97, 98] [120, 120, 97, 98, 97, 98] 2 = some [.num 3, .num 4
     specFind [97, 98] [120, 120, 97, 98, 97, 98] 2 = some [.num 3, .num 4] := by
   have hs : specFind [97, 98] [120, 120, 97, 98, 97, 98] 2 = some [.num 3, .num 4] := by decide
   exact ⟨by rw [vm_eq_reference_partial _ _ _ (by decide)]; exact hs, hs⟩
+
+/-! ## vm_eq_reference beyond literals — the fragment `inFragment`
+
+  `inFragment pat` (decidable, `Proofs/PmFrag.lean`): after an optional leading `^`, the pattern is a sequence of
+  single-character items — a literal byte (any byte except NUL `( ) % . [`; the bytes `] ^ $ * + - ?` count as literals
+  exactly where lstrlib reads them as literals), `.`, `%x` (x not a digit, `b`, `f`, NUL), a set `[...]` / `[^...]`
+  (as `classEnd` delimits it: `]` first, `%x` classes, ranges `x-z`, `-` at the edges; no NUL; excluded: a range whose
+  upper bound is `%`, i.e. the open finding C14-set-range-upper-escape) —
+  each optionally followed by ONE quantifier `*`, `+`, `-`, `?`, optionally closed by the anchor `$`. -/
+
+/-- **vm_eq_reference, one attempt**: for every pattern of the fragment the Model's parser and compiler succeed, the
+    anchor flag is the reference's, and for EVERY subject, every start position `s ≤ |subject|` and every recursion
+    cap with `|subject| + |pattern| + 3 ≤ cap`, one run of the Model's backtracking VM (with the fuel `Find` gives it)
+    returns what the reference's `do_match` returns at `s`: the same match end with the capture array `[s, end]`, or
+    no match; the reference raises no error.  (Proof: simulation between VM states (pc, sp, recursion level, capture
+    array) and the reference's recursion over the pattern items, by induction over the items and, inside each
+    quantifier, over the bytes left.) -/
+theorem vm_run_eq_reference (pat : List Nat) (hne : 0 < pat.length) (hfrag : inFragment pat = true) :
+    ∃ (sq : SeqPat) (insts : Array Inst), parseTop pat.toArray = .ok sq ∧ sq.mustHead = (splitAnchor pat).1 ∧
+      compilePattern sq = .ok insts ∧
+      ∀ (cap : Nat) (src : Array Nat) (s : Nat), s ≤ src.size → src.size + pat.length + 3 ≤ cap →
+        RunAgrees src (splitAnchor pat).2 s (vm src insts cap (vmFuel src insts) 0 s 1 #[]) :=
+  frag_pipeline pat hne hfrag
+
+/-- **vm_eq_reference, `string.find`**: for every pattern of the fragment, every subject with
+    `|subject| + |pattern| + 3 ≤ 1000000` (the Model's recursion cap; beyond it gopher-lua raises
+    "pattern/input too complex" where lstrlib iterates) and every init, the whole Model pipeline — scanner,
+    parsePattern, compilePattern, recursiveVM, Find's scan loop, strFind's init arithmetic and result assembly —
+    returns exactly the reference's `string.find`. -/
+theorem vm_eq_reference_items (pat subj : List Nat) (init : Int) (hfrag : inFragment pat = true)
+    (hsz : subj.length + pat.length + 3 ≤ maxRecursionLevel) :
+    modelFind pat subj init = specFind pat subj init :=
+  find_frag_eq pat subj init hfrag hsz
+
+/-- non-vacuity: `^%a+.-b*c?%.$` is in the fragment … -/
+example : inFragment [94, 37, 97, 43, 46, 45, 98, 42, 99, 63, 37, 46, 36] = true := by decide
+
+/-- … so are patterns in which `] ^ $ * -` stand for themselves (`]*^$-x`, `*a`), … -/
+example : inFragment [93, 42, 94, 36, 45, 120] = true ∧ inFragment [42, 97] = true := by decide
+
+/-- … and sets: `[%a_][%w_]*`, `^[^a-c%d]+$`, `[]]`, `[a-]`, `[%a-z]`, `[a-z-9]`, `[--a]`; … -/
+example : inFragment [91, 37, 97, 95, 93, 91, 37, 119, 95, 93, 42] = true ∧
+    inFragment [94, 91, 94, 97, 45, 99, 37, 100, 93, 43, 36] = true ∧ inFragment [91, 93, 93] = true ∧
+    inFragment [91, 97, 45, 93] = true ∧ inFragment [91, 37, 97, 45, 122, 93] = true ∧
+    inFragment [91, 97, 45, 122, 45, 57, 93] = true ∧ inFragment [91, 45, 45, 97, 93] = true := by decide
+
+/-- … the set of the open finding, `[a-%z]`, and an unclosed set are not; … -/
+example : inFragment [91, 97, 45, 37, 122, 93] = false ∧ inFragment [91, 97] = false := by decide
+
+/-- … captures, back-references, `%b`, `%f`, a trailing `%` are not. -/
+example : inFragment [40, 97, 41] = false ∧ inFragment [37, 49] = false ∧ inFragment [37, 98, 40, 41] = false ∧
+    inFragment [37, 102, 97] = false ∧ inFragment [97, 37] = false := by decide
+
+/-- non-vacuity with a set: `("a-z"):find("[%a-z]+")` = 1 3 (the witness of the repaired defect C14-set-range) -/
+example : modelFind [91, 37, 97, 45, 122, 93, 43] [97, 45, 122] 1 = some [.num 1, .num 3] := by
+  rw [vm_eq_reference_items _ _ _ (by decide) (by decide)]
+  decide
+
+/-- non-vacuity of the theorem: `("xx12ab."):find("%d+.-b?%.$")` = 3 7 on both sides -/
+example : modelFind [37, 100, 43, 46, 45, 98, 63, 37, 46, 36] [120, 120, 49, 50, 97, 98, 46] 1 = some [.num 3, .num 7] := by
+  rw [vm_eq_reference_items _ _ _ (by decide) (by decide)]
+  decide
+
+/-! ## vm_eq_reference with captures — the fragment `inFragmentC`
+
+  `inFragmentC pat` (decidable, `Proofs/PmCap.lean`): the items of `inFragment` plus captures `(` … `)` (nested to any
+  depth), position captures `()`, balanced matches `%bxy` (x, y not NUL) and back-references `%1`–`%9`, subject to the
+  static capture discipline lstrlib enforces when it passes the item (`capsOK`: at most 32 captures, every `)` closes an
+  open capture, every capture is closed at the end, a back-reference names a capture that is already closed). -/
+
+/-- **vm_eq_reference with captures, one attempt**: for every pattern of `inFragmentC` the Model's parser and compiler
+    succeed, and for EVERY subject, start position `s ≤ |subject|` and recursion cap with `|subject| + |pattern| + 3 ≤ cap`,
+    one run of the Model's VM returns what the reference's `do_match` returns at `s`: the same match end and a capture
+    array that carries the reference's capture list — slot 0 = start, slot 1 = end, slots 2i+2 / 2i+3 = start / end of
+    the i-th capture (both = position·2+1 for a position capture), every closed capture inside the subject, array length
+    exactly 2·(captures+1) (`PostC`) — or both report no match; the reference raises no error.  In particular the Go-panic
+    site `src[lo:hi]` of `opNumber`, left open by `pattern_total_partial`, is unreachable on this fragment. -/
+theorem vm_run_eq_reference_captures (pat : List Nat) (hne : 0 < pat.length) (hfrag : inFragmentC pat = true) :
+    ∃ (sq : SeqPat) (insts : Array Inst) (T : Nat), parseTop pat.toArray = .ok sq ∧ sq.mustHead = (splitAnchor pat).1 ∧
+      compilePattern sq = .ok insts ∧
+      ∀ (cap : Nat) (src : Array Nat) (s : Nat), s ≤ src.size → src.size + pat.length + 3 ≤ cap →
+        RunAgreesC src (splitAnchor pat).2 T s (vm src insts cap (vmFuel src insts) 0 s 1 #[]) :=
+  fragC_pipeline pat hne hfrag
+
+/-- **vm_eq_reference with captures, `string.find`**: for every pattern of `inFragmentC`, every subject with
+    `|subject| + |pattern| + 3 ≤ 1000000` and every init, the whole Model pipeline — scanner, parsePattern (recursive
+    descent into captures), compilePattern (capture numbering, the closed-capture check of back-references),
+    recursiveVM with its capture array (save / restore, position captures, `%b` scan, back-reference comparison),
+    Find's scan loop, strFind's init arithmetic and its capture-pushing loop — returns exactly the value list of the
+    reference's `string.find`: start, end, and every capture (substring or position). -/
+theorem vm_eq_reference_captures (pat subj : List Nat) (init : Int) (hfrag : inFragmentC pat = true)
+    (hsz : subj.length + pat.length + 3 ≤ maxRecursionLevel) :
+    modelFind pat subj init = specFind pat subj init :=
+  find_fragC_eq pat subj init hfrag hsz
+
+/-- **vm_eq_reference with captures, `string.match`**: the same for `string.match` (its own init arithmetic, the
+    whole match when the pattern has no captures, the empty pattern included). -/
+theorem vm_eq_reference_captures_match (pat subj : List Nat) (init : Int) (hfrag : inFragmentC pat = true)
+    (hsz : subj.length + pat.length + 3 ≤ maxRecursionLevel) :
+    modelMatch pat subj init = specMatch pat subj init :=
+  match_fragC_eq pat subj init hfrag hsz
+
+/-- full statement of `vm_eq_reference_captures`, without the size guard -/
+def vm_eq_reference_captures_full : Prop :=
+  ∀ (pat subj : List Nat) (init : Int), inFragmentC pat = true → modelFind pat subj init = specFind pat subj init
+
+/-- it is false of the code: the recursion counter of `recursiveVM` grows by one per byte a greedy item consumes, so
+    `("a"):rep(1000000):find("a*")` raises "pattern/input too complex" (the cap is 1000000) where the reference, which
+    iterates in `max_expand`, matches — and the reference raises no error on any pattern of the fragment
+    (`specFind_total`).  A limit of the implementation ("pattern/input too complex" is a `*pm.Error`, not a crash), not
+    a semantic deviation; it is why the guard is there.  On the real code `("a"):rep(999997):find("a*")` matches and
+    `("a"):rep(999998):find("a*")` raises — exactly the threshold the Model gives (`model_cap_general`: N ≥ 999998). -/
+theorem vm_eq_reference_captures_full_fails : ¬ vm_eq_reference_captures_full := by
+  intro h
+  have := h [97, 42] (List.replicate 1000000 97) 1 (by decide)
+  rw [model_cap_witness] at this
+  exact specFind_total _ _ _ (by decide) this.symm
+
+/-- non-vacuity: `("  x1 "):match("^%s*(.-)%s*$")` = "x1"; `("abc"):match("b*", -1)` = "" … -/
+example : modelMatch [94, 37, 115, 42, 40, 46, 45, 41, 37, 115, 42, 36] [32, 32, 120, 49, 32] 1 = some [.str [120, 49]] ∧
+    modelMatch [98, 42] [97, 98, 99] (-1) = some [.str []] := by
+  rw [vm_eq_reference_captures_match _ _ _ (by decide) (by decide), vm_eq_reference_captures_match _ _ _ (by decide) (by decide)]
+  decide
+
+/-- non-vacuity: `("key = 42"):find("(%a+)%s*=%s*(%d+)()")` = 1 8 "key" "42" 9 -/
+example : modelFind [40, 37, 97, 43, 41, 37, 115, 42, 61, 37, 115, 42, 40, 37, 100, 43, 41, 40, 41]
+    [107, 101, 121, 32, 61, 32, 52, 50] 1 =
+    some [.num 1, .num 8, .str [107, 101, 121], .str [52, 50], .num 9] := by
+  rw [vm_eq_reference_captures _ _ _ (by decide) (by decide)]
+  decide
+
+/-- non-vacuity: a back-reference and `%b`: `("xabab(c)"):find("(ab)%1%b()")` = 2 8 "ab" -/
+example : modelFind [40, 97, 98, 41, 37, 49, 37, 98, 40, 41] [120, 97, 98, 97, 98, 40, 99, 41] 1 =
+    some [.num 2, .num 8, .str [97, 98]] := by
+  rw [vm_eq_reference_captures _ _ _ (by decide) (by decide)]
+  decide
+
+/-- the fragment, characterised: a pattern is in `inFragmentC` iff its body tokenizes (`tokToks`: items, `(`, `)`, `()`,
+    `%bxy`, `%d`) and the token list obeys the capture discipline (`capsOK`) — the tree the Model's parser must build
+    then exists (the `build` conjunct in the definition is implied). -/
+theorem fragment_captures_characterised (pat : List Nat) :
+    inFragmentC pat = true ↔
+      ∃ toks tail, tokToks ((splitAnchor pat).2.length + 1) (splitAnchor pat).2 = some (toks, tail) ∧ capsOK 0 [] toks = true :=
+  inFragmentC_iff pat
+
+/-- the fragment with captures contains the fragment of items (so `vm_eq_reference_captures` subsumes
+    `vm_eq_reference_items`; the literal `vm_eq_reference_partial` keeps its own value: it has no size guard — a
+    literal program never nests more than three calls). -/
+theorem fragment_inclusion (pat : List Nat) (h : inFragment pat = true) : inFragmentC pat = true :=
+  inFragment_sub pat h
+
+/-- non-vacuity: `^(a(b*)%2)()%b<>[%w_]-$`, `((a)(b))%3%2`, `(()x)` are in the fragment; … -/
+example : inFragmentC [94, 40, 97, 40, 98, 42, 41, 37, 50, 41, 40, 41, 37, 98, 60, 62, 91, 37, 119, 95, 93, 45, 36] = true ∧
+    inFragmentC [40, 40, 97, 41, 40, 98, 41, 41, 37, 51, 37, 50] = true ∧ inFragmentC [40, 40, 41, 120, 41] = true := by
+  decide
+
+/-- … a back-reference to an open capture `(a%1)`, an unclosed `(a`, a stray `)`, `%b` without two bytes, `%0` are not. -/
+example : inFragmentC [40, 97, 37, 49, 41] = false ∧ inFragmentC [40, 97] = false ∧ inFragmentC [97, 41] = false ∧
+    inFragmentC [37, 98, 40] = false ∧ inFragmentC [37, 48] = false := by decide
 
 end GLua.Props.C14
